@@ -75,8 +75,22 @@ let rec scheme_of (f : string array) =
      | _ -> failwith "env params")
   | _ -> failwith ("scheme " ^ scheme ^ route)
 
+(* POLYVAL unit cases: kernel model (as Update/Update/Finish) and the RFC 8452
+   specification over the zero-padded 16-byte blocks *)
+let blocks16 (d : n list) : n list list =
+  let rec go d = match d with [] -> [] | _ ->
+    let b = take 16 d in
+    let b = b @ List.init (16 - List.length b) (fun _ -> N0) in
+    b :: go (drop 16 d) in
+  go d
+let handle_pv (f : string array) =
+  let key = unhex f.(5) and d2 = unhex f.(8) and d1 = unhex f.(9) in
+  let impl = hexs (polyval_impl key [d1; d2]) in
+  Printf.sprintf "pv=%s|int=%s|ref=%s" impl impl (hexs (polyval_spec key (blocks16 d1 @ blocks16 d2)))
+
 let handle line =
   match String.split_on_char '|' line with
+  | "C01" :: "pv" :: _ as l -> handle_pv (Array.of_list (List.tl l))
   | "C01" :: rest when List.length rest = 10 ->
     let f = Array.of_list rest in
     let (enc, dec, ivlen) = scheme_of f in
